@@ -148,6 +148,7 @@ def concat(I, a, b, as_list=False):
     else:
         na = a.length
         r = SymArr(mkint(iadd(na, b.length)), lambda i: vite(icmp("<", i, na), a.at(i), b.at(mkint(isub(i, na)))), a.kind)
+        r.fold_alias = (a, na)        # running folds over the first len(a) elements are a's running folds (same elements)
     r.is_list = as_list
     return r
 
@@ -646,7 +647,22 @@ def install(I):
         v = a[1]
         side = k.get("side", a[2] if len(a) > 2 else "left")
         if arr.items is None:
-            raise Unsupported("searchsorted on symbolic-length array (use a contract)")
+            # contract of np.searchsorted on a SORTED array (sortedness is checked at a Skolem index: a[i] <= a[i+1]):
+            # result r in [0, len]; left: a[i] < v for i < r and a[i] >= v for i >= r; right: a[i] <= v for i < r, a[i] > v for i >= r
+            c = ctx()
+            L = arr.length
+            if not skolem_valid(lambda i: mkbool(bimp(icmp("<", iadd(i, 1), L), bterm(I_.scalar_compare("<=", arr.at(i), arr.at(mkint(iadd(i, 1))))))), L, "sorted"):
+                raise Unsupported("searchsorted: cannot show the array sorted")
+            r = z3.Int(c.fresh("ssorted"))
+            reg_witness(c, r)
+            reg_witness(c, r - 1)
+            reg_witness(c, z3.IntVal(0))
+            reg_witness(c, z3.simplify(zi(L) - 1))
+            c.assume(z3.And(r >= 0, r <= zi(L)))
+            lt, ge = ("<", ">=") if side == "left" else ("<=", ">")
+            c.universals.append((True, lambda i: bimp(icmp("<", i, r), bterm(I_.scalar_compare(lt, arr.at(i), v))), L))
+            c.universals.append((True, lambda i: bimp(icmp(">=", i, r), bterm(I_.scalar_compare(ge, arr.at(i), v))), L))
+            return SInt(r)
         # number of elements < v (left) or <= v (right), array assumed sorted
         cnt = 0
         for x in arr.items:
